@@ -152,8 +152,8 @@ def allFrom (p : Int → Bool) : Nat → Int → Bool
   | n + 1, c => p c && allFrom p n (c + 1)
 
 /-- `D01`: the (state, operation) pairs on which the recorded diff list is proved to undo and
-    redo the operation exactly.  Outside it: `set_columns_width` / `set_rows_height` over a HIDDEN
-    column/row (`get_column_width` answers 0 for it, and undo then stores 0 — finding F01c), states
+    redo the operation exactly.  Outside it: `delete_sheet` of a sheet that has links (the undo does
+    not restore them — finding F01d), states
     whose stored timezone/locale/frozen counts would themselves be rejected by the setters, and —
     for the three sheet-list operations, books whose names are not valid and unique. -/
 def dom (b : Book) : Op → Bool
@@ -190,24 +190,42 @@ def dom (b : Book) : Op → Bool
   | .deleteSheet i =>
     -- the deleted sheet's name is valid and no other sheet has it (true of well-formed books)
     -- and it has no local defined names: undo re-creates those at the END of the name list
-    -- (`new_defined_name` appends), so the list order is not restored exactly
+    -- (`new_defined_name` appends), so the list order is not restored exactly;
+    -- and the sheet has no links (the undo does not restore them: finding F01d)
     match b.sheets[i]? with
     | some sh => isValidSheetName sh.name &&
         !nameTaken env { b with sheets := b.sheets.eraseIdx i } sh.name &&
-        !(b.names.any fun d => d.sheetId == some sh.id)
+        !(b.names.any fun d => d.sheetId == some sh.id) && sh.links.isEmpty
     | none => true
   | .setColumnsWidth s c1 c2 _ =>
     match b.sheets[s]? with
-    | some sh => allFrom (fun c => !(sh.colAt c).hidden && decide (0 ≤ (sh.colAt c).width))
+    | some sh => allFrom (fun c => decide (0 ≤ (sh.colAt c).width))
         (rangeCount c1 c2) c1
     | none => true
   | .setRowsHeight s r1 r2 _ =>
     match b.sheets[s]? with
-    | some sh => allFrom (fun r => !(sh.rowAt r).hidden && decide (0 ≤ (sh.rowAt r).height))
+    | some sh => allFrom (fun r => decide (0 ≤ (sh.rowAt r).height))
         (rangeCount r1 r2) r1
     | none => true
   | .setColumnsHidden _ _ _ _ => true
   | .setRowsHidden _ _ _ _ => true
+  | .moveRows _ _ _ _ => true
+
+/-- the three ways `move_rows_action` can end -/
+theorem moveRows_cases (b : Book) (s : Nat) (r n d : Int) :
+    moveRows b s r n d = ⟨b, none, none⟩ ∨ (∃ e, moveRows b s r n d = fail b e) ∨
+      (∃ b' nd, mMoveRows b s r n nd = .ok b' ∧
+        moveRows b s r n d = done b' [.moveRows s r n nd]) := by
+  unfold moveRows
+  split
+  · left; rfl
+  · split
+    · right; left; exact ⟨_, rfl⟩
+    · split
+      · right; left; exact ⟨_, rfl⟩
+      · split
+        · right; left; exact ⟨_, rfl⟩
+        · next b' hm => right; right; exact ⟨_, _, hm, rfl⟩
 
 /-! ### atomicity of every operation (C04) -/
 
@@ -402,7 +420,10 @@ theorem doOp_atomic (b : Book) (o : Op) (e : Err) (h : (doOp env b o).err = some
         · rw [h0]; rfl
         · exact rowsHiddenLoop_ok s hd _ _ _ _ sh hsh h1 h2
       rw [ofLoop_err_none this] at h; cases h
-
+  | moveRows s r n d =>
+    simp only [doOp] at h ⊢
+    rcases moveRows_cases b s r n d with h1 | ⟨e', h1⟩ | ⟨b', nd, _, h1⟩ <;>
+      rw [h1] at h ⊢ <;> simp_all [fail, done]
 
 /-! ### a successful call that records nothing changed nothing -/
 
@@ -479,6 +500,10 @@ theorem doOp_quiet (b : Book) (o : Op) (herr : (doOp env b o).err = none)
     split at hp
     · simp_all [fail]
     · simp only [ofLoop] at hp herr ⊢; split at hp <;> simp_all
+  | moveRows s r n d =>
+    simp only [doOp] at herr hp ⊢
+    rcases moveRows_cases b s r n d with h1 | ⟨e', h1⟩ | ⟨b', nd, _, h1⟩ <;>
+      rw [h1] at herr hp ⊢ <;> simp_all [fail, done]
 
 /-! ### single-diff operations: the recorded diff links the states before and after -/
 
@@ -628,16 +653,16 @@ theorem linked1_setRowHidden {b : Book} {sheet : Nat} {s : Sheet} {r : Int} {h :
 theorem colsWidthLoop_chain (sheet : Nat) (w : Int) (hw : ¬ w < 0) (b0 : Book) :
     ∀ (n : Nat) (c : Int) (b : Book) (acc : List Diff) (s : Sheet),
       getSheet b sheet = .ok s → 1 ≤ c → c + n - 1 ≤ LAST_COLUMN →
-      allFrom (fun x => !(s.colAt x).hidden && decide (0 ≤ (s.colAt x).width)) n c = true →
+      allFrom (fun x => decide (0 ≤ (s.colAt x).width)) n c = true →
       Chain env b0 acc b →
       Chain env b0 (colsWidthLoop sheet w n c b acc).ds (colsWidthLoop sheet w n c b acc).b
   | 0, _, _, _, _, _, _, _, _, hc => hc
   | n + 1, c, b, acc, s, hs, h1, h2, hall, hc => by
     have hv : validCol c = true := by simp [validCol]; omega
-    simp only [allFrom, Bool.and_eq_true, Bool.not_eq_true', decide_eq_true_eq] at hall
-    obtain ⟨⟨hnh, hpos⟩, hrest⟩ := hall
+    simp only [allFrom, Bool.and_eq_true, decide_eq_true_eq] at hall
+    obtain ⟨hpos, hrest⟩ := hall
     have hg : mGetColumnWidth b sheet c = .ok (s.colAt c).width := by
-      simp [mGetColumnWidth, hs, hv, hnh]
+      simp [mGetColumnWidth, hs, hv]
     simp only [colsWidthLoop, hg, mSetColumnWidth, hs, hv, hw, Bool.not_true,
       Bool.false_eq_true, if_false]
     refine colsWidthLoop_chain sheet w hw b0 n (c + 1) _ _ _ (getSheet_setSheet hs) (by omega)
@@ -651,16 +676,16 @@ theorem colsWidthLoop_chain (sheet : Nat) (w : Int) (hw : ¬ w < 0) (b0 : Book) 
 theorem rowsHeightLoop_chain (sheet : Nat) (w : Int) (hw : ¬ w < 0) (b0 : Book) :
     ∀ (n : Nat) (c : Int) (b : Book) (acc : List Diff) (s : Sheet),
       getSheet b sheet = .ok s → 1 ≤ c → c + n - 1 ≤ LAST_ROW →
-      allFrom (fun x => !(s.rowAt x).hidden && decide (0 ≤ (s.rowAt x).height)) n c = true →
+      allFrom (fun x => decide (0 ≤ (s.rowAt x).height)) n c = true →
       Chain env b0 acc b →
       Chain env b0 (rowsHeightLoop sheet w n c b acc).ds (rowsHeightLoop sheet w n c b acc).b
   | 0, _, _, _, _, _, _, _, _, hc => hc
   | n + 1, c, b, acc, s, hs, h1, h2, hall, hc => by
     have hv : validRow c = true := by simp [validRow]; omega
-    simp only [allFrom, Bool.and_eq_true, Bool.not_eq_true', decide_eq_true_eq] at hall
-    obtain ⟨⟨hnh, hpos⟩, hrest⟩ := hall
+    simp only [allFrom, Bool.and_eq_true, decide_eq_true_eq] at hall
+    obtain ⟨hpos, hrest⟩ := hall
     have hg : mGetRowHeight b sheet c = .ok (s.rowAt c).height := by
-      simp [mGetRowHeight, hs, hv, hnh]
+      simp [mGetRowHeight, hs, hv]
     simp only [rowsHeightLoop, hg, mSetRowHeight, hs, hv, hw, Bool.not_true,
       Bool.false_eq_true, if_false]
     refine rowsHeightLoop_chain sheet w hw b0 n (c + 1) _ _ _ (getSheet_setSheet hs) (by omega)
@@ -696,6 +721,121 @@ theorem rowsHiddenLoop_chain (sheet : Nat) (h : Bool) (b0 : Book) :
       Bool.false_eq_true, if_false]
     exact rowsHiddenLoop_chain sheet h b0 n (c + 1) _ _ _ (getSheet_setSheet hs) (by omega)
       (by omega) (Chain.snoc hc (linked1_setRowHidden env hs hv))
+
+
+/-! ### row moves as permutations of the per-row view -/
+
+theorem rowSrc_inv (r d x : Int) : rowSrc r d (rowSrc (r + d) (-d) x) = x := by
+  unfold rowSrc
+  repeat' split
+  all_goals omega
+
+theorem moveRow1_inv (f : Int → RowView) (r d : Int) :
+    moveRow1 (moveRow1 f r d) (r + d) (-d) = f := by
+  funext x
+  simp only [moveRow1, rowSrc_inv]
+
+/-- moving down: the last single move is the one of the first row -/
+theorem loop_down_last (d : Int) (hd : 0 < d) : ∀ (n : Nat) (row : Int) (f : Int → RowView),
+    moveRowsLoop d (n + 1) row f = moveRow1 (moveRowsLoop d n (row + 1) f) row d
+  | 0, row, f => by simp [moveRowsLoop, hd]
+  | n + 1, row, f => by
+    have ih := loop_down_last d hd n row (moveRow1 f (row + (n + 1 : Nat)) d)
+    have e : moveRowsLoop d (n + 2) row f
+        = moveRowsLoop d (n + 1) row (moveRow1 f (row + (n + 1 : Nat)) d) := by
+      simp [moveRowsLoop, hd]
+    rw [e, ih]
+    have e2 : moveRowsLoop d (n + 1) (row + 1) f
+        = moveRowsLoop d n (row + 1) (moveRow1 f (row + 1 + (n : Nat)) d) := by
+      simp [moveRowsLoop, hd]
+    rw [e2]
+    have : row + ((n + 1 : Nat) : Int) = row + 1 + (n : Nat) := by omega
+    rw [this]
+
+/-- moving up: the last single move is the one of the last row -/
+theorem loop_up_last (d : Int) (hd : ¬ 0 < d) : ∀ (n : Nat) (row : Int) (f : Int → RowView),
+    moveRowsLoop d (n + 1) row f = moveRow1 (moveRowsLoop d n row f) (row + n) d
+  | 0, row, f => by simp [moveRowsLoop, hd]
+  | n + 1, row, f => by
+    have ih := loop_up_last d hd n (row + 1) (moveRow1 f row d)
+    have e : moveRowsLoop d (n + 2) row f = moveRowsLoop d (n + 1) (row + 1) (moveRow1 f row d) := by
+      simp [moveRowsLoop, hd]
+    rw [e, ih]
+    have e2 : moveRowsLoop d (n + 1) row f = moveRowsLoop d n (row + 1) (moveRow1 f row d) := by
+      simp [moveRowsLoop, hd]
+    rw [e2]
+    have : row + 1 + (n : Nat) = row + ((n + 1 : Nat) : Int) := by omega
+    rw [this]
+
+/-- a block moved by `d` and then, from its new place, by `-d` is back where it was -/
+theorem moveRowsLoop_inv (d : Int) (hd0 : d ≠ 0) : ∀ (n : Nat) (row : Int) (f : Int → RowView),
+    moveRowsLoop (-d) n (row + d) (moveRowsLoop d n row f) = f
+  | 0, _, _ => rfl
+  | n + 1, row, f => by
+    by_cases hd : 0 < d
+    · -- forward: down (last move = first row); backward: up, first move = row + d
+      have hneg : ¬ 0 < -d := by omega
+      rw [loop_down_last d hd n row f]
+      have e : moveRowsLoop (-d) (n + 1) (row + d) (moveRow1 (moveRowsLoop d n (row + 1) f) row d)
+          = moveRowsLoop (-d) n (row + d + 1)
+              (moveRow1 (moveRow1 (moveRowsLoop d n (row + 1) f) row d) (row + d) (-d)) := by
+        rw [moveRowsLoop]; simp only [hneg, if_false]
+      rw [e, moveRow1_inv]
+      have : row + d + 1 = (row + 1) + d := by omega
+      rw [this]
+      exact moveRowsLoop_inv d hd0 n (row + 1) f
+    · -- forward: up (last move = last row); backward: down, first move = row + d + n
+      have hpos : 0 < -d := by omega
+      rw [loop_up_last d hd n row f]
+      have e : moveRowsLoop (-d) (n + 1) (row + d) (moveRow1 (moveRowsLoop d n row f) (row + n) d)
+          = moveRowsLoop (-d) n (row + d)
+              (moveRow1 (moveRow1 (moveRowsLoop d n row f) (row + n) d) (row + d + n) (-d)) := by
+        rw [moveRowsLoop]; simp only [hpos, if_true]
+      rw [e]
+      have : row + d + (n : Int) = (row + n) + d := by omega
+      rw [this, moveRow1_inv]
+      exact moveRowsLoop_inv d hd0 n row f
+
+theorem sheet_rows_roundtrip (s : Sheet) (g : Int → RowView) :
+    ({ ({ s with rowAt := g } : Sheet) with rowAt := s.rowAt } : Sheet) = s := by cases s; rfl
+
+/-- the recorded `MoveRows` diff links the states before and after the model-level move -/
+theorem linked1_moveRows {b b' : Book} {sheet : Nat} {row count nd : Int}
+    (h : mMoveRows b sheet row count nd = .ok b') :
+    Linked1 env (.moveRows sheet row count nd) b b' := by
+  refine ⟨?_, h⟩
+  simp only [back1]
+  unfold mMoveRows at h ⊢
+  by_cases h0 : count ≤ 0 ∨ nd = 0
+  · have h0' : count ≤ 0 ∨ -nd = 0 := by omega
+    simp only [h0, if_true] at h
+    injection h with h; subst h
+    simp only [h0', if_true]
+  · have h0' : ¬ (count ≤ 0 ∨ -nd = 0) := by omega
+    simp only [h0, if_false] at h
+    simp only [h0', if_false]
+    by_cases h1 : (!validRow (row + nd) || !validRow (row + count - 1 + nd)) = true
+    · simp [h1] at h
+    · simp only [h1] at h
+      by_cases h2 : (!validRow row || !validRow (row + count - 1)) = true
+      · simp [h2] at h
+      · simp only [h2] at h
+        have e1 : row + nd + -nd = row := by omega
+        have e2 : row + nd + count - 1 + -nd = row + count - 1 := by omega
+        have e3 : row + nd + count - 1 = row + count - 1 + nd := by omega
+        have e4 : row + count - 1 + nd + -nd = row + count - 1 := by omega
+        simp only [e1, e2, e3, e4, h2, h1]
+        cases hs : getSheet b sheet with
+        | error e => simp [hs] at h
+        | ok s =>
+          simp only [hs, Bool.false_eq_true, if_false] at h
+          injection h with h; subst h
+          simp only [getSheet_setSheet hs, Bool.false_eq_true, if_false]
+          have hnd : nd ≠ 0 := by omega
+          rw [setSheet_setSheet]
+          simp only [moveRowsLoop_inv nd hnd]
+          rw [sheet_rows_roundtrip]
+          exact congrArg _ (setSheet_same hs)
 
 
 /-! ### every operation of the domain records a chain from the state before to the state after -/
@@ -869,8 +1009,8 @@ theorem op_chain (b : Book) (o : Op) (ds : List Diff) (hd : dom env b o = true)
     | ok sh =>
       have hsome := getSheet_ok hs
       have hi : i < b.sheets.length := (List.getElem?_eq_some_iff.mp hsome).1
-      simp only [dom, hsome, Bool.and_eq_true, Bool.not_eq_true'] at hd
-      obtain ⟨⟨hvalid, hfree⟩, hnoloc⟩ := hd
+      simp only [dom, hsome, Bool.and_eq_true, Bool.not_eq_true', List.isEmpty_iff] at hd
+      obtain ⟨⟨⟨hvalid, hfree⟩, hnoloc⟩, hnolinks⟩ := hd
       have hno : ∀ d ∈ b.names, (d.sheetId == some sh.id) = false := by
         intro d hd
         cases hq : d.sheetId == some sh.id with
@@ -908,7 +1048,7 @@ theorem op_chain (b : Book) (o : Op) (ds : List Diff) (hd : dom env b o = true)
           have hsh : ({ emptySheet sh.name sh.id with
               rowAt := sh.rowAt, colAt := sh.colAt, grid := sh.grid, frozenCols := sh.frozenCols,
               frozenRows := sh.frozenRows, state := sh.state, color := sh.color } : Sheet) = sh := by
-            cases sh; rfl
+            cases sh; simp only [emptySheet] at hnolinks ⊢; simp_all
           rw [hsh, insertIdx_eraseIdx _ _ _ hsome]
         · simp only [fwd1, mDeleteSheet, h1, h2, if_false, hnames]
   | setColumnsWidth s c1 c2 w =>
@@ -983,6 +1123,15 @@ theorem op_chain (b : Book) (o : Op) (ds : List Diff) (hd : dom env b o = true)
       split at hp
       · simp at hp
       · simp only [Option.some.injEq] at hp; subst hp; exact hch
+  | moveRows s r n d =>
+    simp only [doOp] at herr hp ⊢
+    rcases moveRows_cases b s r n d with h1 | ⟨e', h1⟩ | ⟨b', nd, hm, h1⟩
+    · rw [h1] at hp; simp at hp
+    · rw [h1] at herr; simp [fail] at herr
+    · rw [h1] at hp ⊢
+      simp only [done, Option.some.injEq] at hp ⊢
+      subst hp
+      exact Chain.single env (linked1_moveRows env hm)
 
 /-- the concrete model satisfies the laws of the generic machine on `dom` (`obs` = identity) -/
 theorem laws : Laws (sys env) (fun w => w) (fun b o => dom env b o = true) where
